@@ -362,6 +362,224 @@ theorem PIPE_display_int (env env' : Env) (t : Ast) (hi : hasInstant t = false) 
   rw [(PIPE_display env env' t hi _ hv).1 (.num (.int n)) rfl, dispOutcome,
     (C15_int_full unitNames Display.defaultPrecision false n).1]
 
+/-! ## C06: the unified model has the shape the handler model demands -/
+
+theorem stringifyNum_total (N : Int) (b : Bool) (n : Num) : ∃ t, Display.stringifyNum N b n = .ok t := by
+  cases n with
+  | int k => exact ⟨_, rfl⟩
+  | frac q => exact ⟨_, rfl⟩
+  | flt x => exact C15_precision_total N x
+
+mutual
+theorem stringify_total (names : List Display.Text) (N : Int) (b : Bool) :
+    (d : Display.DVal) → ∃ t, Display.stringify names N b d = .ok t
+  | .num n => stringifyNum_total N b n
+  | .qty m dim => by
+    obtain ⟨t, h⟩ := stringifyNum_total N b m
+    (simp only [Display.stringify, h, bind, Except.bind]; exact ⟨_, rfl⟩)
+  | .arr xs => by
+    obtain ⟨ts, h⟩ := stringifyList_total names N b xs
+    (simp only [Display.stringify, h, bind, Except.bind]; exact ⟨_, rfl⟩)
+  | .str s => ⟨_, rfl⟩
+  | .intv x y => by
+    obtain ⟨t1, h1⟩ := stringifyNum_total N false x
+    obtain ⟨t2, h2⟩ := stringifyNum_total N false y
+    (simp only [Display.stringify, h1, h2, bind, Except.bind]; exact ⟨_, rfl⟩)
+  | .inst iso => ⟨_, rfl⟩
+theorem stringifyList_total (names : List Display.Text) (N : Int) (b : Bool) :
+    (xs : List Display.DVal) → ∃ ts, Display.stringifyList names N b xs = .ok ts
+  | [] => ⟨[], rfl⟩
+  | x :: xs => by
+    obtain ⟨t, h⟩ := stringify_total names N b x
+    obtain ⟨ts, hs⟩ := stringifyList_total names N b xs
+    (simp only [Display.stringifyList, h, hs, bind, Except.bind]; exact ⟨_, rfl⟩)
+end
+
+theorem displayNum_total (N : Int) (n : Num) : ∃ t, Display.displayNum N n = .ok t := by
+  cases n with
+  | int k => exact ⟨_, rfl⟩
+  | frac q =>
+    obtain ⟨ap, h⟩ := C15_approx_total N q
+    (simp only [Display.displayNum, h, bind, Except.bind]; exact ⟨_, rfl⟩)
+  | flt x => exact C15_precision_total N x
+
+/-- **`display_result` never fails** (C15's totality theorems, extended over arrays, intervals and
+    quantities): for every displayable value the display model produces a text. -/
+theorem PIPE_display_total (names : List Display.Text) (N : Int) (b : Bool) (d : Display.DVal) :
+    ∃ t, Display.displayResult names N b d = .ok t := by
+  cases d with
+  | num n =>
+    obtain ⟨t, h⟩ := displayNum_total N n
+    (simp only [Display.displayResult, h, bind, Except.bind]; exact ⟨_, rfl⟩)
+  | qty m dim =>
+    cases m with
+    | frac q =>
+      obtain ⟨ap, h⟩ := C15_approx_total N q
+      (simp only [Display.displayResult, h, bind, Except.bind]; exact ⟨_, rfl⟩)
+    | int k => (simp only [Display.displayResult, Display.displayNum, bind, Except.bind]; exact ⟨_, rfl⟩)
+    | flt x =>
+      obtain ⟨t, h⟩ := C15_precision_total N x
+      (simp only [Display.displayResult, Display.displayNum, h, bind, Except.bind]; exact ⟨_, rfl⟩)
+  | arr xs =>
+    obtain ⟨ts, h⟩ := stringifyList_total names N false xs
+    (simp only [Display.displayResult, h, bind, Except.bind]; exact ⟨_, rfl⟩)
+  | intv x y =>
+    obtain ⟨t, h⟩ := stringify_total names N false (.intv x y)
+    (simp only [Display.displayResult, h, bind, Except.bind]; exact ⟨_, rfl⟩)
+  | str s => (simp only [Display.displayResult]; exact ⟨_, rfl⟩)
+  | inst iso => (simp only [Display.displayResult]; exact ⟨_, rfl⟩)
+
+/-- consequently the display stage of the unified model raises nothing: the only failure after a
+    successful evaluation is `reduce_result` on a lazy combinatoric whose resolution fails -/
+theorem PIPE_display_stage (env : Env) (t : Ast) (c : String) (h : (treeStages env t).display = some c) :
+    ∃ env' comb e, runProgram env t = (env', .ok (.comb comb)) ∧ comb.resolve = .error e := by
+  unfold treeStages at h
+  rcases hp : runProgram env t with ⟨env', r⟩
+  rw [hp] at h
+  cases r with
+  | error er => cases er <;> simp at h
+  | ok v =>
+    have hdt : ∀ w e, displayText w ≠ .error (.err e) := by
+      intro w e
+      have key : ∀ v, (match toDVal v with
+          | Option.none => (.error (.unmodelled "display") : R String)
+          | some d => liftE (Display.displayResult unitNames Display.defaultPrecision false d) |>.map String.ofList)
+          ≠ .error (.err e) := by
+        intro v
+        cases toDVal v with
+        | none => simp
+        | some d =>
+          obtain ⟨txt, ht⟩ := PIPE_display_total unitNames Display.defaultPrecision false d
+          simp [ht, liftE, Except.map]
+      cases w with
+      | none => simp [displayText]
+      | num n => exact key (.num n)
+      | comb c => exact key (.comb c)
+      | qty m d => exact key (.qty m d)
+      | arr xs => exact key (.arr xs)
+      | intv a b => exact key (.intv a b)
+      | str s => exact key (.str s)
+    cases v with
+    | comb cb =>
+      cases hr : cb.resolve with
+      | error e => exact ⟨env', cb, e, rfl, hr⟩
+      | ok x =>
+        simp only [reduceResult, resolveLazy, hr, liftE, Except.map, bind, Except.bind] at h
+        split at h
+        · rename_i e heq; exact absurd heq (hdt _ e)
+        · simp at h
+    | _ =>
+      simp only [reduceResult, resolveLazy, bind, Except.bind] at h
+      split at h
+      · rename_i e heq; exact absurd heq (hdt _ e)
+      · simp at h
+
+open Gen.Exec in
+/-- **C06's handler model and the unified pipeline agree on every modelled input.**  Take the four
+    stages of one `execute` call as the unified model runs them (`stagesOf`: C11 lexer, C02 parser,
+    `eval_node`, `reduce_result` + `display_result`, each either completing or raising a class) and feed
+    them to C06's `Exec.execute` with the handler tables generated from the `ast` of interpret.py.  Its
+    verdict — status 0 with text on the output stream only / status 1 with the diagnostic on the error
+    stream only / an escaping exception — is what the unified model's outcome shows (`observe`).
+    The lexical and parse stages need no hypothesis: the model only raises the four caught lexical classes,
+    ParsingError (caught), or OverflowError out of `parse_number` (not caught: escapes in both).  For the
+    evaluation stage the hypotheses are those of `C06_no_escape_current`: the class raised is one of Ka's
+    own (or ZeroDivisionError / OverflowError, which `eval_parse_tree` converts), and the display stage
+    raises nothing (`PIPE_display_stage`: it cannot, except for a lazy value whose resolution fails). -/
+theorem PIPE_execute (env : Env) (s : List Char) (hs : s.all Lexer.inAlphabet = true) (hx : hugeExponent s = false)
+    (x : Exec.Outcome) (hobs : observe (runIn env s).2 = some x)
+    (hown : ∀ c, (stagesOf env s).evalTree = some c → c ∈ ownClasses)
+    (hdisp : (stagesOf env s).display = none) :
+    Exec.execute lexCaught parseCaught evalCaught evalConverted (stagesOf env s) = x := by
+  obtain ⟨hL, hP, hO, hE⟩ := handler_table
+  simp only [runIn, hs, hx, Bool.not_true, Bool.false_eq_true, if_false] at hobs
+  unfold stagesOf at hown hdisp ⊢
+  cases hl : Lexer.tokenise s with
+  | error e =>
+    simp only [hl] at hobs ⊢
+    cases e <;> simp only [lexOutcome, observe, Option.some.injEq, reduceCtorEq] at hobs <;> subst hobs <;>
+      simp only [Exec.execute, lexClass] <;> exact hL _ (by simp)
+  | ok toks =>
+    simp only [hl, runTokens] at hobs hown hdisp ⊢
+    cases hp : parse toks with
+    | error pe =>
+      simp only [hp] at hobs ⊢
+      cases pe with
+      | parsing i =>
+        simp only at hobs ⊢
+        split at hobs
+        · simp [observe] at hobs
+        · simp only [observe, Option.some.injEq] at hobs; subst hobs; exact hP
+      | overflow =>
+        simp only [observe, Option.some.injEq] at hobs ⊢; subst hobs; exact hO
+      | fuel => simp [observe] at hobs
+    | ok t =>
+      simp only [hp] at hobs hown hdisp ⊢
+      unfold runTree at hobs
+      unfold treeStages at hown hdisp ⊢
+      split at hobs
+      · simp [observe] at hobs
+      · rcases hr : runProgram env t with ⟨env', r⟩
+        simp only [hr] at hobs hown hdisp ⊢
+        cases r with
+        | error er =>
+          cases er with
+          | err e =>
+            simp only [ofEvalErr, observe, Option.some.injEq] at hobs; subst hobs
+            simp only [Exec.execute]
+            exact hE _ (hown _ rfl)
+          | unmodelled w => simp [ofEvalErr, observe] at hobs
+          | fuel => simp [ofEvalErr, observe] at hobs
+        | ok v =>
+          simp only at hobs hown hdisp ⊢
+          cases hd : reduceResult v >>= displayText with
+          | ok txt =>
+            simp only [hd, observe, Option.some.injEq] at hobs; subst hobs
+            rfl
+          | error er =>
+            cases er with
+            | err e => simp [hd] at hdisp
+            | unmodelled w => simp [hd, ofEvalErr, observe] at hobs
+            | fuel => simp [hd, ofEvalErr, observe] at hobs
+
+/-- **The shape C06 demands, for every input**: the unified model's outcome is exactly one of — status 0
+    with an output text, status 1 with a lexical / parse / evaluation diagnostic, an escaping
+    OverflowError (out of `parse_number` only), or `unmodelled`; never an output text together with an
+    error, and no other class ever escapes. -/
+theorem PIPE_outcome_shape (env : Env) (s : List Char) :
+    (∃ out, (runIn env s).2 = .ok out) ∨ (∃ c i, (runIn env s).2 = .lexErr c i) ∨ (∃ i, (runIn env s).2 = .parseErr i) ∨
+    (∃ e, (runIn env s).2 = .evalErr e) ∨ (runIn env s).2 = .escaped "OverflowError" ∨ (∃ w, (runIn env s).2 = .unmodelled w) := by
+  cases h : (runIn env s).2 with
+  | ok out => exact Or.inl ⟨out, rfl⟩
+  | lexErr c i => exact Or.inr (Or.inl ⟨c, i, rfl⟩)
+  | parseErr i => exact Or.inr (Or.inr (Or.inl ⟨i, rfl⟩))
+  | evalErr e => exact Or.inr (Or.inr (Or.inr (Or.inl ⟨e, rfl⟩)))
+  | unmodelled w => exact Or.inr (Or.inr (Or.inr (Or.inr (Or.inr ⟨w, rfl⟩))))
+  | escaped c =>
+    refine Or.inr (Or.inr (Or.inr (Or.inr (Or.inl ?_))))
+    unfold runIn at h
+    split at h
+    · cases h
+    · split at h
+      · cases h
+      · split at h
+        · rename_i e _; cases e <;> cases h
+        · rename_i toks _
+          unfold runTokens at h
+          split at h
+          · split at h <;> cases h
+          · exact h.symm
+          · cases h
+          · rename_i t _
+            unfold runTree at h
+            split at h
+            · cases h
+            · split at h
+              · rename_i e _; cases e <;> cases h
+              · split at h
+                · cases h
+                · rename_i e _; cases e <;> cases h
+
 /-! ## non-vacuity: the hypotheses are satisfiable; concrete programs through the whole pipeline -/
 
 /-- `3!/2` and the tokens of the text `3! /2` -/
@@ -428,5 +646,14 @@ set_option maxRecDepth 100000 in
 example : (runText "sqrt(-4)").render = "err runtime" := by decide +kernel
 set_option maxRecDepth 100000 in
 example : (runText "prod(2..5) + size({1, 2}) + (3 in {1, 2, 3})").render = "ok 123\n" := by decide +kernel
+
+set_option maxRecDepth 100000 in
+/-- hypotheses of `PIPE_execute` on `1/0` (status 1, ZeroDivisionError converted and caught) and on `2 + 3` -/
+example : observe (runIn initialEnv "1/0".toList).2 = some (.done 1 false true)
+    ∧ (stagesOf initialEnv "1/0".toList).evalTree = some "ZeroDivisionError" ∧ "ZeroDivisionError" ∈ ownClasses
+    ∧ (stagesOf initialEnv "1/0".toList).display = none
+    ∧ observe (runIn initialEnv "2 + 3".toList).2 = some (.done 0 true false)
+    ∧ (stagesOf initialEnv "2 + 3".toList).evalTree = none ∧ (stagesOf initialEnv "2 + 3".toList).display = none := by
+  decide +kernel
 
 end KaVerif
